@@ -61,8 +61,13 @@ RULES = {
     "mapping of the data file - the frombuffer offset of numpy(), the slice of tobytes() - is taken in the mapping's own coordinate system; "
     "a mapping that starts at a page boundary below the tensor while tobytes() still slices with the absolute file offset returns no or "
     "wrong bytes for every initializer beyond the first page, although the file is right",
+    "R15": "the threshold is exclusive in every backend: wherever the save path compares a tensor's size with the `size_threshold_bytes` "
+    "parameter, the comparison is strict on the external side (`nbytes > threshold` selects external, `nbytes <= threshold` keeps inline): "
+    "tensors *above* the threshold become external and the others - one of exactly the threshold size included - stay inline; `>=` / "
+    "`<` moves that tensor to the data file (an already-external tensor of that size is re-externalised instead of coming back inline, "
+    "a zero-size tensor with threshold 0 becomes a zero-length external tensor)",
 }
-FLOORS = {"R1": 4, "R2": 4, "R3": 20, "R4": 1, "R5": 3, "R6": 25, "R7": 1, "R8": 2, "R9": 1, "R10": 1, "R11": 2, "R12": 3, "R13": 1, "R14": 2}
+FLOORS = {"R1": 4, "R2": 4, "R3": 20, "R4": 1, "R5": 3, "R6": 25, "R7": 1, "R8": 2, "R9": 1, "R10": 1, "R11": 2, "R12": 3, "R13": 1, "R14": 2, "R15": 2}
 EXPLANATION = (
     "Class-qualified effect summaries of the try bodies and finally blocks of the two save entry points; data-flow "
     "checks on the initializer collection loops and on the offset accumulators; table agreement between the "
@@ -620,7 +625,39 @@ def rule_r13(ctx):
     ctx.require(n >= 1, "no table keyed by id(<tensor>) found in the writers (the per-tensor lock table expected)")
 
 
+def rule_r15(ctx):
+    n = 0
+    for m in ctx.repo.pkg_modules():
+        if not (m.name in ("onnx_ir.external_data", "onnx_ir._io") or m.name.startswith("onnx_ir._safetensors")) or m.name.endswith("_test"):
+            continue
+        for f in ctx.repo.live(m.all_funcs):
+            if isinstance(f.node, ast.Lambda) or "size_threshold_bytes" not in f.params:
+                continue
+            for c in own_nodes(f.node):
+                if not (isinstance(c, ast.Compare) and len(c.ops) == 1 and isinstance(c.ops[0], (ast.Gt, ast.GtE, ast.Lt, ast.LtE))):
+                    continue
+                l, r = c.left, c.comparators[0]
+                thr_right = isinstance(r, ast.Name) and r.id == "size_threshold_bytes"
+                thr_left = isinstance(l, ast.Name) and l.id == "size_threshold_bytes"
+                if not (thr_right or thr_left):
+                    continue
+                other = l if thr_right else r
+                if not any(isinstance(x, ast.Attribute) and x.attr in ("nbytes", "size") or (isinstance(x, ast.Name) and "size" in x.id.lower()) for x in ast.walk(other)):
+                    continue
+                n += 1
+                op = type(c.ops[0])
+                strict = op in ((ast.Gt, ast.LtE) if thr_right else (ast.Lt, ast.GtE))
+                ctx.check("R15", f"{f.local}: `{norm(c)}` keeps a tensor of exactly the threshold size inline", strict, f, c,
+                          f"`{norm(c)}` puts a tensor whose size equals `size_threshold_bytes` on the external side: the contract of the save path is that tensors above the "
+                          "threshold become external and the others stay inline - with the default threshold of 256 a 64-element float32 initializer moves to the data file, and the "
+                          "raw and safetensors backends disagree about the same model",
+                          how="comparisons of a tensor size with the size_threshold_bytes parameter in the save path: `>` / `<=` (threshold on the right) or `<` / `>=` (on the left)",
+                          construct=f"threshold comparison {norm(c)}")
+    ctx.require(n >= 2, f"only {n} comparisons with size_threshold_bytes found in the save path")
+
+
 def run(ctx):
+    rule_r15(ctx)
     c04.rule_r9(ctx, rule="R14", consequence="; an external initializer loaded back from the data file then differs from the one that was saved")
     rule_r13(ctx)
     rule_r12(ctx)
